@@ -12,6 +12,7 @@ C25 — RPC replies and stream records stay correlated and well-formed.
 import SerfProofs.Lemmas.IpcStreams
 import SerfModel.Gen.IpcHeaders
 import SerfModel.Gen.EventStreamStop
+import SerfModel.Gen.IpcStreamShape
 namespace SerfProofs.C25
 open SerfModel SerfModel.IpcStreams SerfProofs.IpcStreams SerfModel.IpcHeaders
 
@@ -36,35 +37,97 @@ theorem C25_header_sites_cover :
         Gen.IpcHeaders.headerSites.any (·.recvType == t)) = true ∧
     Gen.IpcHeaders.headerSites.any (·.func == "handleRequest") = true := by decide
 
+/-- What a stream object stores and what its send methods put into the header, read off the
+extracted shapes: the constructor stores its `seq` argument iff the field is initialised with the
+parameter `seq`; a send method uses the stored value iff the literal's Seq is `<recv>.seq`. -/
+def storedSeq (c : CtorSite) (arg : Nat) : Option Nat :=
+  if c.seqFieldExpr == "seq" && c.hasSeqParam && c.seqWrites == 0 then some arg else none
+
+def headerSeqOf (h : HeaderSite) (stored : Option Nat) : Option Nat :=
+  if h.recv != "" && h.seqExpr == h.recv ++ ".seq" then stored else none
+
+/-- **Every record on a stream carries the stream's seq**: for each stream type, whatever
+sequence number `n` the stream command / query command carried and handed to the constructor,
+every header built by a send method of that stream type has `Seq = n` (and by
+`C25_seq_passed_on` the stream's `seq` field is never written again). -/
+theorem C25_records_carry_stream_seq (n : Nat) :
+    ∀ c ∈ Gen.IpcHeaders.ctors, ∀ h ∈ Gen.IpcHeaders.headerSites, h.recvType = c.typ →
+      headerSeqOf h (storedSeq c n) = some n := by
+  have hc : ∀ c ∈ Gen.IpcHeaders.ctors, ∀ m, storedSeq c m = some m := by
+    have : Gen.IpcHeaders.ctors.all (fun c => c.seqFieldExpr == "seq" && c.hasSeqParam && c.seqWrites == 0) = true := by decide
+    intro c hcm m
+    have := List.all_eq_true.mp this c hcm
+    simp only [storedSeq, this, if_true]
+  have hh : ∀ h ∈ Gen.IpcHeaders.headerSites, streamTypes.contains h.recvType = true →
+      (h.recv != "" && h.seqExpr == h.recv ++ ".seq") = true := by
+    have : Gen.IpcHeaders.headerSites.all (fun h => !streamTypes.contains h.recvType || (h.recv != "" && h.seqExpr == h.recv ++ ".seq")) = true := by decide
+    intro h hm hst
+    have := List.all_eq_true.mp this h hm
+    rw [hst] at this
+    simpa using this
+  have hct : ∀ c ∈ Gen.IpcHeaders.ctors, streamTypes.contains c.typ = true := by
+    have : Gen.IpcHeaders.ctors.all (fun c => streamTypes.contains c.typ) = true := by decide
+    exact fun c hcm => List.all_eq_true.mp this c hcm
+  intro c hcm h hhm heq
+  have h1 := hh h hhm (by rw [heq]; exact hct c hcm)
+  simp only [headerSeqOf, h1, if_true]
+  exact hc c hcm n
+
+example : ∃ c ∈ Gen.IpcHeaders.ctors, ∃ h ∈ Gen.IpcHeaders.headerSites, h.recvType = c.typ := by decide
+
 /-! ### (b) event stream -/
 
-/-- **Event stream.**  For every filter list, capacity and schedule: the wanted arrivals
-(those some filter accepts) are exactly the logged ones, in arrival order; what was sent
-followed by what is still buffered is exactly the wanted arrivals that found room, in
-order; the buffer never exceeds its capacity. -/
+/-- **Event stream.**  For every filter list, capacity and schedule of events dispatched to the
+stream, iterations of the stream goroutine (with succeeding or failing client sends) and `Stop()`
+calls: the wanted events (those some filter accepts) dispatched while the stream is open are exactly
+the logged ones, in arrival order; what was sent, then the one event lost to a failed send (if any),
+then what is still buffered, is exactly those of them that found room, in order; nothing is lost
+while the goroutine lives; the buffer never exceeds its capacity. -/
 theorem C25_event_stream (fs : List Filter) (cap : Nat) (sched : List Act) :
-    (esRun fs cap sched).log.map (·.1) = (arrivals sched).filter (wanted fs) ∧
-    (esRun fs cap sched).sent ++ (esRun fs cap sched).buf = accepted (esRun fs cap sched).log ∧
+    (esRun fs cap sched).log.map (·.1) = (liveArrivals sched).filter (wanted fs) ∧
+    (esRun fs cap sched).sent ++ (esRun fs cap sched).lost ++ (esRun fs cap sched).buf = accepted (esRun fs cap sched).log ∧
+    ((esRun fs cap sched).dead = false → (esRun fs cap sched).lost = []) ∧
     (esRun fs cap sched).buf.length ≤ cap := by
-  refine ⟨?_, ?_, ?_⟩
+  have hacc := es_acc fs cap sched {} (by simp [AccInv, accepted])
+  refine ⟨?_, hacc.1, hacc.2, ?_⟩
   · simpa [esRun] using es_log fs cap sched {}
-  · exact es_acc fs cap sched {} (by simp [accepted])
   · exact es_cap fs cap sched {} (by simp)
 
-/-- An arrival is dropped only if it is unwanted or the buffer is full at that moment. -/
+/-- **In order, only matching, nothing invented**: at every moment and whatever fails, the records
+sent are a prefix of the accepted arrivals (the matching events dispatched to the open stream that
+found room), in arrival order. -/
+theorem C25_event_sent_prefix (fs : List Filter) (cap : Nat) (sched : List Act) :
+    (esRun fs cap sched).sent <+: accepted (esRun fs cap sched).log := by
+  obtain ⟨_, h2, _, _⟩ := C25_event_stream fs cap sched
+  exact ⟨(esRun fs cap sched).lost ++ (esRun fs cap sched).buf, by rw [← h2, List.append_assoc]⟩
+
+/-- An event dispatched to an open stream is dropped only if it is unwanted or the buffer is full
+at that moment. -/
 theorem C25_event_drop_iff_full (fs : List Filter) (cap : Nat) (pre : List Act) (e : Ev)
-    (hw : wanted fs e = true) :
+    (hw : wanted fs e = true) (hopen : (esRun fs cap pre).stopped = false) :
     ((esRun fs cap pre).buf.length < cap →
         (esRun fs cap (pre ++ [.arrive e])).log = (esRun fs cap pre).log ++ [(e, true)]) ∧
     (¬ (esRun fs cap pre).buf.length < cap →
         (esRun fs cap (pre ++ [.arrive e])).log = (esRun fs cap pre).log ++ [(e, false)]) := by
-  constructor <;> intro h <;> simp only [esRun] at h <;> simp [esRun, List.foldl_append, esStep, hw, h]
+  simp only [esRun] at hopen
+  constructor <;> intro h <;> simp only [esRun] at h <;> simp [esRun, List.foldl_append, esStep, hw, h, hopen]
+
+/-- Nothing enters a stopped stream: after a `Stop()` no later dispatch changes the log (and by
+`C25_event_stream` sent ++ lost ++ buffered stays the accepted list: the goroutine only moves
+buffered events to the client). -/
+theorem C25_event_nothing_after_stop (fs : List Filter) (cap : Nat) (pre post : List Act) :
+    (esRun fs cap (pre ++ [.stop] ++ post)).log = (esRun fs cap (pre ++ [.stop])).log := by
+  have hs : (esRun fs cap (pre ++ [.stop])).stopped = true := by simp [esRun, List.foldl_append, esStep]
+  obtain ⟨h1, _⟩ := es_after_stop fs cap post _ hs
+  simp only [esRun, List.foldl_append] at *
+  exact h1
 
 /-- Only wanted events are ever sent. -/
 theorem C25_event_only_matching (fs : List Filter) (cap : Nat) (sched : List Act) (e : Ev)
     (h : e ∈ (esRun fs cap sched).sent) : wanted fs e = true := by
-  obtain ⟨h1, h2, _⟩ := C25_event_stream fs cap sched
-  have : e ∈ accepted (esRun fs cap sched).log := by rw [← h2]; simp [h]
+  obtain ⟨h1, _, _, _⟩ := C25_event_stream fs cap sched
+  have hp := C25_event_sent_prefix fs cap sched
+  have : e ∈ accepted (esRun fs cap sched).log := hp.subset h
   have : e ∈ (esRun fs cap sched).log.map (·.1) := by
     simp only [accepted, List.mem_map, List.mem_filter] at this ⊢
     obtain ⟨p, ⟨hp, _⟩, rfl⟩ := this
@@ -72,20 +135,30 @@ theorem C25_event_only_matching (fs : List Filter) (cap : Nat) (sched : List Act
   rw [h1] at this
   exact (List.mem_filter.mp this).2
 
-/-- Once the stream goroutine has caught up, `sent` is exactly: the matching events minus
-those dropped on a full buffer, in order. -/
+/-- **Every matching event unless the buffer overflowed**: once the stream goroutine — alive, no
+failed send — has caught up, `sent` is exactly the matching events dispatched to the open stream
+minus those dropped on a full buffer, in order. -/
 theorem C25_event_stream_drained (fs : List Filter) (cap : Nat) (sched : List Act) (n : Nat)
-    (hn : (esRun fs cap sched).buf.length ≤ n) :
+    (hn : (esRun fs cap sched).buf.length ≤ n) (halive : (esRun fs cap sched).dead = false) :
     (esRun fs cap (sched ++ List.replicate n .consume)).sent = accepted (esRun fs cap sched).log ∧
     (esRun fs cap (sched ++ List.replicate n .consume)).buf = [] := by
-  obtain ⟨_, h2, _⟩ := C25_event_stream fs cap sched
-  obtain ⟨d1, d2, _⟩ := es_drain fs cap n (esRun fs cap sched) hn
+  obtain ⟨_, h2, h3, _⟩ := C25_event_stream fs cap sched
+  obtain ⟨d1, d2, _⟩ := es_drain fs cap n (esRun fs cap sched) hn halive
+  have hl := h3 halive
   simp only [esRun, List.foldl_append] at *
-  exact ⟨by rw [d2, h2], d1⟩
+  refine ⟨?_, d1⟩
+  rw [d2, ← h2, hl]; simp
 
 /-- non-vacuity: capacity 1, the second matching event is dropped, the non-matching one ignored -/
 example : (esRun [⟨"user", "a"⟩] 1 [.arrive ⟨"user", "a", 1⟩, .arrive ⟨"user", "b", 2⟩, .arrive ⟨"user", "a", 3⟩,
       .consume, .arrive ⟨"user", "a", 4⟩, .consume]).sent = [⟨"user", "a", 1⟩, ⟨"user", "a", 4⟩] := by decide
+
+/-- non-vacuity with a failing send and a stop: event 1 sent, event 3's send fails (lost), event 4
+stays buffered, event 5 arrives after Stop and is ignored -/
+example : let s := esRun [⟨"user", "a"⟩] 4 [.arrive ⟨"user", "a", 1⟩, .consume, .arrive ⟨"user", "a", 3⟩,
+      .arrive ⟨"user", "a", 4⟩, .consumeFail, .consume, .stop, .arrive ⟨"user", "a", 5⟩]
+    s.sent = [⟨"user", "a", 1⟩] ∧ s.lost = [⟨"user", "a", 3⟩] ∧ s.buf = [⟨"user", "a", 4⟩] ∧ s.dead = true ∧
+    s.log.length = 3 := by decide
 
 example : wanted [⟨"user", "a"⟩] ⟨"user", "a", 3⟩ = true ∧
     ¬ (esRun [⟨"user", "a"⟩] 1 [.arrive ⟨"user", "a", 1⟩]).buf.length < 1 := by decide
@@ -277,6 +350,54 @@ example : (qRun {} [.pushAck "n1", .selAck true, .pushResp "n1" "pong", .close, 
     [.ack "n1", .response "n1" "pong", .done] := by decide
 
 example : (qRun {} [.fire, .selDone true]).stopped = true ∧ (qRun {} [.fire, .selDone true]).failed = false := by decide
+
+/-! #### Tie to the source: regenerated shapes (`Gen/IpcStreamShape.lean`) -/
+
+/-- `handleStream` hands the client's filter string verbatim to `ParseEventFilter` (one call,
+argument `req.Type`, neither `req` nor `filters` written afterwards) and the parsed filters to
+`newEventStream` — seeded C25-b lower-cased the string first. -/
+theorem C25_src_filter_verbatim : Gen.IpcStreamShape.streamRequest.ok = true := by decide
+
+/-- `HandleEvent` consults every filter (`range es.filters`, `f.Invoke(e)`), returns when none
+matched; `eventCh` has the model's capacity; `stream` ranges over `eventCh`. -/
+theorem C25_src_event_stream : Gen.IpcStreamShape.eventStream.ok = true := by decide
+
+/-- The select loop of `Stream` denotes the model's variant: both receives use the ok flag with
+`ch = nil; continue`, failing sends return, `sendDone` is called at exactly one place — the
+`<-done` case, which returns — and there is no `break` (seeded C25-a). -/
+theorem C25_src_query_loop : qVariantOf Gen.IpcStreamShape.queryLoop = goodQ := by decide
+
+theorem qStepV_good (s : QS) (a : QAct) : qStepV goodQ s a = qStep s a := by
+  cases a <;> simp [qStepV, qStep, goodQ]
+
+theorem qRunV_good (s : QS) (sched : List QAct) : qRunV goodQ s sched = qRun s sched := by
+  induction sched generalizing s with
+  | nil => simp [qRunV, qRun]
+  | cons a r ih =>
+    simp only [qRunV, qRun, List.foldl_cons, qStepV_good] at *
+    exact ih _
+
+/-- **Query stream, for the loop shape the source has.** -/
+theorem C25_query_stream_for_source_shape (ackNil : Bool) (sched : List QAct) :
+    let s := qRunV (qVariantOf Gen.IpcStreamShape.queryLoop) { ackNil := ackNil } sched
+    acksOf s.out <+: s.pushedAcks ∧ respsOf s.out <+: s.pushedResps ∧
+    (s.stopped = false → s.out.all (!·.isDone) = true) ∧
+    (s.stopped = true → s.failed = true ∨ ∃ pre, s.out = pre ++ [.done] ∧ pre.all (!·.isDone) = true) := by
+  rw [C25_src_query_loop, qRunV_good]
+  exact C25_query_stream ackNil sched
+
+/-- **Regression witness (seeded C25-a)**: a completion record sent when the response channel is
+found closed, with the loop going on (`break` leaves only the select): the deadline then sends a
+second `done`, and acks still buffered follow the first one. -/
+theorem C25_done_on_close_counterexample :
+    (qRunV { doneOnRespClose := true } {} [.pushAck "n1", .close, .selResp true, .selAck true, .fire, .selDone true]).out =
+      [.done, .ack "n1", .done] ∧
+    wellFormed (qRunV { doneOnRespClose := true } {} [.pushAck "n1", .close, .selResp true, .selAck true, .fire, .selDone true]).out = false := by
+  decide
+
+/-- the source's shape on the same schedule -/
+example : (qRunV goodQ {} [.pushAck "n1", .close, .selResp true, .selAck true, .fire, .selDone true]).out =
+    [.ack "n1", .done] := by decide
 
 /-- **Regression witness**: the loop before the repair (receive without the `ok` flag) sends
 zero-value records once Serf has closed the channels — records that are no real ack. -/
